@@ -701,3 +701,28 @@ def cases(tier, seed):
                     for shape in ("1d", "col"):
                         add("gram.spec", dict(n=n, d=d, field=field, shape=shape, seed=sd), "vectors_to_gram_matrix/" + shape + "/" + field, n > 1 and d > 1)
     return out
+
+
+# =============================================================================================
+# frame coverage shared by all properties (E2 obligations for every public function of the anchor files + run-time frame cases)
+# =============================================================================================
+from props import frame_all as _fa  # noqa: E402
+from props.frame_common import frame_generic as _fg, frame_object as _fo  # noqa: E402
+
+CLAUSES.setdefault("frame.generic", _fg)
+CLAUSES.setdefault("frame.object", _fo)
+_cases_before_frames = cases
+_prove_before_frames = globals().get("prove")
+
+
+def cases(tier, seed):  # noqa: F811
+    return _cases_before_frames(tier, seed) + _fa.frame_cases(ID, seed)
+
+
+def prove(tier, seed):  # noqa: F811
+    from vt.pyvc.termproofs import merge
+
+    b = _fa.prove_frames(ID, lambda s: _fa.frame_cases(ID, s))(tier, seed)
+    if _prove_before_frames is None:
+        return b
+    return merge(_prove_before_frames(tier, seed), b)
